@@ -191,3 +191,38 @@ func buildPair(c PairCase, o *run.Obs) (*pair, bool) {
 	}
 	return p, true
 }
+
+// enumWidePairs: versions whose top node holds several hundred keys (more child slots than fit in a byte), differing in a few
+// entries that sit below low and high link indices.
+func enumWidePairs(tier string, shard, nshards int, yield func(PairCase) bool) (bool, string) {
+	i := 0
+	for _, format := range core.Formats {
+		for _, n := range []int{130, 260, 300} { // keys of layer 1 in the top node
+			for _, mode := range []string{"clone", "reload"} {
+				i++
+				if i%nshards != shard {
+					continue
+				}
+				layers := make([]uint8, 2*n+1)
+				for k := range layers {
+					layers[k] = uint8(k % 2) // a leaf with one key between any two keys of the top node
+				}
+				cfg := core.Config{BF: 16, Format: format, Key: core.KLK, Val: core.VInt, Cache: "none", Marshaler: "json", LKLayers: layers}
+				var base []core.Op
+				for k := range layers {
+					base = append(base, core.Op{Kind: core.OpInsert, K: k, V: k % 4})
+				}
+				// the delta touches leaves below link indices 1, n-3 and n-1 (update, delete, update) and adds nothing else
+				delta := []core.Op{{Kind: core.OpInsert, K: 2, V: 5}, {Kind: core.OpInsert, K: 2 * (n - 3), V: 5}, {Kind: core.OpInsert, K: 2 * (n - 1), V: 5}}
+				if n%2 == 0 {
+					delta = []core.Op{{Kind: core.OpInsert, K: 2 * (n - 2), V: 5}}
+				}
+				pc := PairCase{Cfg: cfg, Base: base, Mode: mode, Delta: delta, OldRes: "reloaded", NewRes: "reloaded", StopAt: -1}
+				if !yield(pc) {
+					return false, ""
+				}
+			}
+		}
+	}
+	return false, "wide top nodes: 130 / 260 / 300 keys of layer 1 with a one-key leaf in every child slot (bf 16), versions differing in leaves below low and high link indices"
+}
